@@ -569,6 +569,7 @@ class StmtMixin(object):
         st.assume(self.no_finals_between(st, st.alloc, a))   # re-established by the obligation at the unit's exit
       st.alloc = a
     head_alloc = st.alloc
+    head_maybe_final = st.maybe_final
     # streams written by the loop body: what earlier iterations wrote is an opaque chunk
     if st.bufs and ls.get('writes_streams', True) and any(
         isinstance(n, ast.Attribute) and (n.attr == 'write' or n.attr.startswith('Write')) for b in body for n in ast.walk(b)):
@@ -639,8 +640,8 @@ class StmtMixin(object):
             self.check_frame(s2, head_heap, modkeys, 'loop-frame[%s]' % tag, node)
             if s2.alloc is not head_alloc and not ls.get('allocates', cx.spec.allocates if cx.spec is not None else True):
               self.oblige(s2, 'loop-no-alloc[%s]' % tag, s2.alloc == head_alloc, node, 'the loop body allocates nothing')
-            elif s2.alloc is not head_alloc and lalloc != 'any':
-              self.oblige(s2, 'loop-no-final-alloc[%s]' % tag, self.no_finals_between(s2, head_alloc, s2.alloc), node,
+            elif lalloc != 'any' and s2.maybe_final and not head_maybe_final:
+              self.oblige(s2, 'loop-no-final-alloc[%s]' % tag, z3.BoolVal(False), node,
                           "one iteration creates no instance of a 'final' class")
           elif kind == 'brk':
             self.check_frame(s2, head_heap, modkeys, 'loop-frame[%s]' % tag, node)
